@@ -25,7 +25,7 @@ RULE = ("environments = DIP text with 3-7 typed nodes (float/int with units of 7
         "operators of different priority, or a unit conversion, or a negation/definedness test, or a hole with slice or format; "
         "distinct = the rendered text together with the environment text")
 ASSUMPTIONS = [
-    "linear units only (no temperature/logarithmic units, no %); plane angles (deg, rad) are a dimension of their own that converts "
+    "linear units only (no temperature/logarithmic units, no %); % and ppth only as REQUESTED unit of a plain-number result; plane angles (deg, rad) are a dimension of their own that converts "
     "to plain numbers in radians (sin/cos/tan, and the code lets a plain number be added to an angle - not judged); Quantity arithmetic "
     "itself is property C06 - here the numeric result in the requested unit is compared (rel. 1e-9 of the error scale of the tree)",
     "function arguments are dimensionless (except sqrt and the base of pow), exponents of pow() and ** are small integers",
@@ -213,7 +213,7 @@ def gen_env(rng, custom=None):
     with DIP() as d:
         d.add_string(text)
         env = d.parse()
-    allunits = sorted({u for us in dims.values() for u in us if u})
+    allunits = sorted({u for us in dims.values() for u in us if u} | {"%", "ppth"})
     table = unit_table(env, allunits)
     kmap = {u: k for u, k, _ in table}
     for n, v2, u2 in mods:
@@ -315,6 +315,14 @@ def flat_kinds(e):
     if e[0] == "lit":
         return ["lit"]
     return [e[0]] + sum((flat_kinds(x) for x in e[1:] if isinstance(x, list)), [])
+
+
+def out_unit(rng, E, dim):
+    """the requested unit: one of the dimension; for a plain number none, or a dimensionless table unit (%, ppth) into which the
+    result is converted"""
+    if dim == "0":
+        return rng.choice([None, None, None, "%", "ppth"])
+    return rng.choice(E.units[dim])
 
 
 def gen_num_leaf(rng, E, dim):
@@ -471,7 +479,11 @@ def num_stream(ctx, tabs, envs, count, corpus):
             ast = gen_num(rng, E, dim, rng.randint(1, 4))
             kind = "gen"
         ast = no_sign_after_paren(wf_fix(ast, NUM_LVL, rng, 0.05))
-        out = rng.choice(E.units[dim]) if kind == "gen" else rng.choice(E.units[dim])
+        out = out_unit(rng, E, dim)
+        if kind == "gen" and rng.random() < 0.04:
+            # a requested unit of another dimension must be refused (also for a result whose units all cancel)
+            d3 = rng.choice([d for d in DIMS if d not in (dim, "0", "A")] if dim in ("0", "A") else [d for d in DIMS if d not in (dim, "0")])
+            out, kind = rng.choice(E.units[d3]), "dimrefuse"
         blanks = [rng.choice([0, 0, 0, 1, 2]) for _ in range(40)]
         cases.append((E, units, ast, blanks, out, kind))
     reqs = []
@@ -554,7 +566,7 @@ def dip_num_stream(ctx, tabs, envs, count):
         E, units = rng.choice(envs)
         dim = rng.choice([d for d in DIMS if d != "0"] + ["0"])
         ast = no_sign_after_paren(wf_fix(gen_num(rng, E, dim, rng.randint(1, 3)), NUM_LVL))
-        out = rng.choice(E.units[dim])
+        out = out_unit(rng, E, dim)
         cases.append((E, units, ast, [0] * 40, out, rng.choice(["float", "float", "int"])))
     for _ in range(count // 3):
         E, units = rng.choice(envs)
